@@ -37,7 +37,8 @@ type chainCase struct {
 	N       int       `json:"n"`
 	Length  *int      `json:"length"` // MC_Writer lines: bytes accepted by the underlying writer
 	G       int       `json:"g"`      // kind "redispatch": number of global middleware (chain = G ++ redispatcher ++ G ++ inner)
-	B       int       `json:"b"`      // position of the redispatcher
+	B       int       `json:"b"`      // the nested chain starts after position b (the redispatcher, plus the never started tail)
+	Tail    int       `json:"tail"`   // 1: the redispatcher is a middleware of its route, the route's main handler follows it
 }
 
 // recWriter is the underlying http.ResponseWriter: it records every call and can reply with short writes / errors.
@@ -416,10 +417,19 @@ func chainRunOnce(s *Summary, c *chainCase, sp chainSplit, outerPrefix string, c
 					for _, h := range inUse { // one Use call per handler: the group chain gets spare capacity
 						r.Use(h)
 					}
+					rpath := "/x"
 					if cachedDyn {
-						rt = r.GET("/x/{id}", hs[n-1], variadic...)
-					} else {
-						rt = r.GET("/x", hs[n-1], variadic...)
+						rpath = "/x/{id}"
+					}
+					// the registration entry points: a route object may carry its middleware BEFORE it is registered in the group
+					switch (sp.variadic + sp.inner + sp.gBefore) % 3 {
+					case 1:
+						rt = rux.NewRoute(rpath, hs[n-1], "GET").Use(variadic...)
+						rt.AttachTo(r)
+					case 2:
+						rt = r.AddRoute(rux.NewNamedRoute("x", rpath, hs[n-1], "GET").Use(variadic...))
+					default:
+						rt = r.GET(rpath, hs[n-1], variadic...)
 					}
 					// registered AFTER the route, in the same group: must not leak into the chain of /x
 					r.GET("/decoy", nopHandler, decoyMw)
@@ -453,7 +463,11 @@ func chainRunOnce(s *Summary, c *chainCase, sp chainSplit, outerPrefix string, c
 			// middleware again (same handler values).
 			g, b := c.G, c.B
 			r.Use(hs[:g]...)
-			r.GET("/g/h/x/{id}", hs[b-1])
+			if c.Tail == 1 {
+				r.GET("/g/h/x/{id}", hs[b-1], hs[b-2]) // main handler hs[b-1] is never started, hs[b-2] re-dispatches
+			} else {
+				r.GET("/g/h/x/{id}", hs[b-1])
+			}
 			inner := hs[b+g:]
 			r.GET("/t", func(cx *rux.Context) {
 				if len(cx.Params) != 0 { // a static route exposes no parameters (C02), also after a re-dispatch
